@@ -84,16 +84,16 @@ class Ctx:
     def fire(self, ev):
         """Run the callback for a boundary (never re-entrantly)."""
         self.count += 1
-        self.depth += 1
+        _tls.depth = getattr(_tls, "depth", 0) + 1
         try:
             self.on_op(ev)
         finally:
-            self.depth -= 1
+            _tls.depth -= 1
 
 
 def current():
     ctx = getattr(_tls, "ctx", None)
-    if ctx is None or ctx.depth > 0 or not ctx.enabled:
+    if ctx is None or getattr(_tls, "depth", 0) > 0 or not ctx.enabled:
         return None
     return ctx
 
@@ -150,7 +150,7 @@ class FileProxy:
 
     def _fire(self, name, n=None):
         ctx = self._ctx
-        if getattr(_tls, "ctx", None) is ctx and ctx.depth == 0 and ctx.enabled:
+        if getattr(_tls, "ctx", None) is ctx and getattr(_tls, "depth", 0) == 0 and ctx.enabled:
             ctx.fire(Event(name, [self._path], n=n))
 
     def __enter__(self):
@@ -190,7 +190,12 @@ class FileProxy:
             except Exception:
                 pass
             raise
-        return self._f.close()
+        try:
+            return self._f.close()
+        finally:
+            hook = getattr(self._ctx, "after_close", None)
+            if hook is not None:
+                hook(self._path)
 
 
 def _open_wrap(real):
@@ -224,11 +229,11 @@ def _open_wrap(real):
         writing = any(c in mode for c in "wax+")
         if opener is None:
             ctx.fire(Event("open", [p], "w" if writing else "r"))
-            ctx.depth += 1
+            _tls.depth = getattr(_tls, "depth", 0) + 1
             try:
                 f = real(file, mode, *a, **k)
             finally:
-                ctx.depth -= 1
+                _tls.depth -= 1
         else:
             f = real(file, mode, *a, **k)   # the opener's os.open is the boundary
         if writing:
